@@ -102,3 +102,10 @@ pub use database::{
     Database, ExecuteResult, PreparedStatement, RecoveryInfo, Row,
 };
 pub use types::OwnedValue;
+
+/// verification hook: the CLI value renderer (`cli/table.rs`, normally behind the `cli` feature)
+/// compiled stand-alone so that `TableFormatter` (format_date / format_time / format_timestamp)
+/// can be driven without pulling in the interactive shell.
+#[cfg(all(kahflane_turdb_verif, not(feature = "cli")))]
+#[path = "cli/table.rs"]
+pub mod verif_cli_table;
